@@ -87,3 +87,6 @@ add('C27','model_checking','exhaustive enumeration of the (exponent grid x bin s
 add('C26','model_checking','exhaustive enumeration of (allocation pair x stake-weight setting x multiplier x relay count x node x delegator map) on the real nodes keeper reward and fee-distribution code, with exact big-rational reference amounts',
  'Every combination of the finite grids: minted = computed reward = exact formula; fee part exact; operator/delegator/output shares exact per address; collected fees fully distributed with DAO and proposer parts adding up.',
  'Grids are finite (allocation pairs 36 quick / ~1000 thorough); fractional exponents compared with a float bound.')
+add('C42','model_checking','exhaustive enumeration of block-result histories x every query/sort/page on the real TransactionIndexer vs a filter-and-sort model',
+ 'All histories of 3 blocks x <=2 (3 thorough) transactions from a 7-kind alphabet at height triples crossing the number-encoding length boundaries, plus 12-transaction blocks, indexed via Index and AddBatch; every hash lookup and every (height | signer | recipient [+height]) x sort x page size x page query compared with the model, including total and page concatenation.',
+ 'MemDB backend (same iterator contract as goleveldb); 3 colliding addresses; DeleteFromHeight (rollback) not covered.')
